@@ -46,4 +46,19 @@ theorem IndexSite.ok_sound (s : IndexSite) (hok : s.ok = true) (len : Nat)
     simp only [Bool.and_eq_true, decide_eq_true_eq] at hok
     simp only [Idx.inRange]; omega
 
+/-! generic: a list all of whose elements lie in an EMPTY exception list is empty / meets the predicate -/
+
+theorem all_contains_nil {α β} [BEq β] (l : List α) (g : α → β)
+    (h : l.all (fun f => ([] : List β).contains (g f)) = true) : l = [] := by
+  cases l with
+  | nil => rfl
+  | cons a as => simp at h
+
+theorem all_or_contains_nil {α β} [BEq β] (l : List α) (p : α → Bool) (g : α → β)
+    (h : l.all (fun f => p f || ([] : List β).contains (g f)) = true) : l.all p = true := by
+  rw [List.all_eq_true] at h ⊢
+  intro x hx
+  have := h x hx
+  simpa using this
+
 end Csvq.ErrFacts
